@@ -263,6 +263,26 @@ func genRunCase(r *vh.Rng, name, kind string, layout int, fixed *[4]proj.Date) *
 			kind = "missing-year-file"
 			missing[r.Range(start.Y, end.Y)] = true
 		}
+	case "drop-dec31-leap", "drop-dec31-nonleap": // exactly the last day of the start year (see exactDayCases)
+		z := proj.Date{Y: start.Y, M: 12, D: 31}.Z()
+		drop[z] = true
+		rc.Spec.Dropped = proj.FromZ(z).String()
+	case "drop-last2-leap":
+		z := proj.Date{Y: start.Y, M: 12, D: 31}.Z()
+		drop[z], drop[z-1] = true, true
+		rc.Spec.Dropped = fmt.Sprintf("%v … %v", proj.FromZ(z-1), proj.FromZ(z))
+	case "drop-jan1":
+		z := proj.Date{Y: start.Y + 1, M: 1, D: 1}.Z()
+		drop[z] = true
+		rc.Spec.Dropped = proj.FromZ(z).String()
+	case "drop-feb29":
+		y := start.Y
+		if !isLeap(y) {
+			y++
+		}
+		z := proj.Date{Y: y, M: 3, D: 1}.Z() - 1
+		drop[z] = true
+		rc.Spec.Dropped = proj.FromZ(z).String()
 	case "gap-year-end":
 		y := r.Range(start.Y, end.Y-1)
 		if (proj.Date{Y: y, M: 12, D: 31}).Z() <= start.Z() { // the run starts on that 31 December: nothing to drop there
@@ -825,6 +845,52 @@ func startYearStage(c *vh.Ctx, extra int) {
 	c.Correspond("dayloop(start year)", cases, impl, 0, 0, func(i int) interface{} { return kept[i].replay(nil) })
 }
 
+// Exactly one (or two) days missing at the places where "year complete" is decided, with the run
+// going on at least 30 days into the following year and ending well before the end of the last
+// loaded year (so that no "year not loaded" error can hide a wrong year switch): the last day of a
+// leap year, the last day of a non-leap year, a 1 January, a 29 February, the last two days of a
+// leap year. All must end with an error.
+var exactKinds = []string{"drop-dec31-leap", "drop-dec31-nonleap", "drop-jan1", "drop-feb29", "drop-last2-leap"}
+
+func exactDayCases(r *vh.Rng, reps int) []*runCase {
+	var out []*runCase
+	d := func(y, m, dd int) proj.Date { return proj.Date{Y: y, M: m, D: dd} }
+	leaps := []int{1976, 1996, 2000, 2004, 2028, 2040}
+	for rep := 0; rep < reps; rep++ {
+		for ki, kind := range exactKinds {
+			for layout := 0; layout < 3; layout++ {
+				L := leaps[r.Intn(len(leaps))]
+				y := L // the year whose end (or whose successor's 1 January) is damaged
+				switch kind {
+				case "drop-dec31-nonleap":
+					y = L + r.Range(1, 3)
+				case "drop-jan1":
+					y = L - r.Intn(2) // the missing 1 January follows a leap or a non-leap year
+				}
+				start := d(y, r.Range(3, 11), r.Range(1, 28))
+				if kind == "drop-feb29" {
+					start = d(L-1, r.Range(6, 12), r.Range(1, 28))
+					if r.Chance(0.3) {
+						start = d(L, 1, r.Range(1, 31))
+					}
+				}
+				lastYear := y + 1
+				if kind == "drop-feb29" {
+					lastYear = L + 1
+				}
+				end := d(lastYear, 1, 1).AddDays(r.Range(30, 300))
+				fs := d(start.Y, 1, 1)
+				if layout != 0 && r.Chance(0.5) {
+					fs = start.AddDays(-r.Range(0, 40))
+				}
+				w := [4]proj.Date{start, end, fs, d(lastYear, 12, 31)}
+				out = append(out, genRunCase(r, fmt.Sprintf("x%d_%d_%d", rep, ki, layout), kind, layout, &w))
+			}
+		}
+	}
+	return out
+}
+
 // the fixed witnesses of HermesProps/C04.lean, replayed on the real code: the `…_fails_at` witness
 // that is still violated (series starts after the first simulated day, inside the start year) and
 // the former witnesses of the repaired defects (they must end with an error now)
@@ -842,7 +908,7 @@ func witnessCases(r *vh.Rng) []*runCase {
 	return out
 }
 
-func errorStreamStage(c *vh.Ctx, n int) {
+func errorStreamStage(c *vh.Ctx, n, reps int) {
 	root := filepath.Join(c.Scratch, "eruns")
 	r := vh.NewRng(c.Seed*1000003 + 77)
 	progress := os.Getenv("VERIF_C04_PROGRESS")
@@ -854,6 +920,7 @@ func errorStreamStage(c *vh.Ctx, n int) {
 	}
 	var all []*runCase
 	all = append(all, witnessCases(r)...)
+	all = append(all, exactDayCases(r, reps)...)
 	k := 0
 	for _, kind := range errorKinds { // every defect kind in every layout it applies to
 		for layout := 0; layout < 3; layout++ {
@@ -991,7 +1058,7 @@ func pathStage(c *vh.Ctx) {
 
 func checkC04(c *vh.Ctx) {
 	if os.Getenv("VERIF_C04_CHILD") != "" {
-		errorStreamStage(c, c.N(60, 500))
+		errorStreamStage(c, c.N(60, 500), c.N(1, 12))
 		return
 	}
 	c.Res.Rule = "kernels: generated date sequences (valid, early / mid-year start, over capacity, gaps, year jumps, short years) through the real readers of all three layouts, LoadYear on generated tables, replaceMissingValues / transformWeatherData on generated grids — each compared with the Lean model; whole runs: generated projects x 3 layouts with windows inside the covered period (every simulated day is one evaluation: values = normalised record of the calendar date, counters in lock-step) and the error stream (windows partly outside, gaps, missing / empty year files, short last year; must end with an error); non-trivial = distinct simulated day / distinct generated case"
